@@ -10,142 +10,11 @@ import (
 	"encoding/json"
 	"fmt"
 	"os"
-	"sort"
-	"strings"
 	"testing"
 
-	"github.com/ogen-go/ogen/gen"
-	"github.com/ogen-go/ogen/gen/ir"
-
-	"pgregory.net/rapid"
-
 	"verif/internal/c01x"
-	"verif/internal/regen"
-	"verif/internal/specgen"
 	"verif/internal/vk"
 )
-
-type specCase struct {
-	Meta   c01x.Meta    `json:"meta"`
-	Config regen.Config `json:"config"`
-}
-
-type batchCase struct {
-	Specs []specCase `json:"specs"`
-}
-
-var configs = []regen.Config{
-	regen.ClientServer(),
-	{DisableAll: true, Enable: []string{"paths/client", "paths/server", "client/request/validation", "server/response/validation"}},
-	{DisableAll: true, Enable: []string{"paths/client", "paths/server", "client/request/options"}},
-	{}, // defaults (with OpenTelemetry)
-	{DisableAll: true, Enable: []string{"paths/client", "paths/server"}, ConvenientErrors: "off"},
-}
-
-func drawSpec(t *rapid.T) specCase {
-	tf := rapid.SampledFrom([]string{"date-time", "date-time", "date", "time"}).Draw(t, "timeformat")
-	eo := specgen.ExchangeOptions{Formats: rapid.IntRange(0, 2).Draw(t, "formats") == 0, TimeFormat: tf}
-	doc := specgen.GenExchangeDoc(t, eo)
-	return specCase{Meta: c01x.Meta{Doc: doc, TimeFormat: tf}, Config: configs[rapid.IntRange(0, len(configs)-1).Draw(t, "config")]}
-}
-
-func drawBatch(t *rapid.T) batchCase {
-	var b batchCase
-	for i := 0; i < 12; i++ {
-		b.Specs = append(b.Specs, drawSpec(t))
-	}
-	return b
-}
-
-func runBatch(u *vk.Unit, tag string, specs []specCase) {
-	b, err := regen.NewBatch(tag)
-	if err != nil {
-		u.T.Fatalf("batch: %v", err)
-	}
-	defer b.Remove()
-	for i, sc := range specs {
-		// response wrapper types and the status classes they serve come from the generator's IR
-		// (reflection cannot see them): generate once in memory, then for real with the completed meta
-		if pre := regen.Generate(sc.Meta.Doc.Render(), sc.Config, "", "api"); pre.Class == regen.OK && pre.Gen != nil {
-			sc.Meta.StatusTable, sc.Meta.Explicit = statusTable(pre.Gen)
-		}
-		out := b.Add(fmt.Sprintf("s%d", i), sc.Meta.Doc.Render(), sc.Config, sc.Meta)
-		u.Eval(1)
-		u.Label("generate:" + out.Class)
-		switch out.Class {
-		case regen.OK, regen.NotImplemented, regen.SpecDiagnostic:
-		default:
-			u.Report(vk.F("generator-"+out.Class, "generation ends with %s: %s", out.Class, tail(out.Err, 600)), sc.Meta.Doc)
-		}
-	}
-	if len(b.Pkgs) == 0 {
-		return
-	}
-	res := b.Build()
-	for _, e := range res.Failed {
-		u.Label("compile-failed")
-		u.Note("compile failure (C02's business, counted only): %s", tail(e, 300))
-	}
-	if len(res.OK) == 0 {
-		return
-	}
-	u.LabelN("compiled", len(res.OK))
-	out, err := b.RunAggregator(res.OK, "verif/internal/c01x", "Run", false, []string{"VERIF_PART=" + tag})
-	if err != nil && !strings.Contains(out, "VIOLATION") {
-		u.T.Errorf("aggregator failed (harness trouble): %v\n%s", err, tail(out, 3000))
-	}
-	if strings.Contains(out, "HARNESS:") {
-		u.T.Errorf("harness problem reported by the executor:\n%s", tail(out, 3000))
-	}
-}
-
-func statusTable(g *gen.Generator) (map[string]map[string][]string, map[string][]int) {
-	table := map[string]map[string][]string{}
-	explicit := map[string][]int{}
-	add := func(op string, r *ir.Response, class string) {
-		if r == nil {
-			return
-		}
-		if table[op] == nil {
-			table[op] = map[string][]string{}
-		}
-		names := []string{}
-		if r.NoContent != nil {
-			names = append(names, r.NoContent.Name)
-		}
-		for _, m := range r.Contents {
-			if m.Type != nil {
-				names = append(names, m.Type.Name)
-			}
-		}
-		for _, n := range names {
-			if n != "" {
-				table[op][n] = append(table[op][n], class)
-			}
-		}
-	}
-	for _, op := range g.Operations() {
-		if op.Responses == nil {
-			continue
-		}
-		for code := range op.Responses.StatusCode {
-			explicit[op.Name] = append(explicit[op.Name], code)
-		}
-		sort.Ints(explicit[op.Name])
-		for i, r := range op.Responses.Pattern {
-			add(op.Name, r, fmt.Sprintf("%dXX", i+1))
-		}
-		add(op.Name, op.Responses.Default, "default")
-	}
-	return table, explicit
-}
-
-func tail(s string, n int) string {
-	if len(s) > n {
-		return "…" + s[len(s)-n:]
-	}
-	return s
-}
 
 func TestExchange(t *testing.T) {
 	u := vk.New(t, "C01", "specs")
@@ -165,17 +34,17 @@ func TestExchange(t *testing.T) {
 		c := doc.Case
 		m := c01x.Meta{Doc: c.Doc, TimeFormat: c.TimeFormat, OnlyOp: c.Op, OnlySeed: c.Seed, OnlyClass: c.Class, Replay: true}
 		// the configuration is not part of the case: try all of them
-		var specs []specCase
-		for _, cfg := range configs {
-			specs = append(specs, specCase{Meta: m, Config: cfg})
+		var specs []c01x.SpecCase
+		for _, cfg := range c01x.Configs {
+			specs = append(specs, c01x.SpecCase{Meta: m, Config: cfg})
 		}
-		runBatch(u, "replay", specs)
+		c01x.RunBatch(u, "replay", specs, "Run", false)
 		return
 	}
 	n := 0
-	vk.Rapid(u, vk.N(4, 160), nil, drawBatch, func(b batchCase) *vk.Finding {
+	vk.Rapid(u, vk.N(4, 160), nil, c01x.DrawBatch, func(b c01x.BatchCase) *vk.Finding {
 		n++
-		runBatch(u, fmt.Sprintf("b%d", n), b.Specs)
+		c01x.RunBatch(u, fmt.Sprintf("b%d", n), b.Specs, "Run", false)
 		return nil
 	})
 }
